@@ -72,3 +72,134 @@ Proof.
   { intros E. rewrite E, failed_hunks_nil in Hne. contradiction. }
   destruct (Hall fp Hin Hh) as [Hwf _]. exact (rej_roundtrip fp rep out Hwf Hf Hne Hw).
 Qed.
+
+(* several rejects in one file (several sections of the failing patch for one file): the file reads back as that
+   many file patches, each with its failed hunks *)
+Definition rej_fp (x : pfilepatch * freport) : pfilepatch :=
+  with_hunks (fst x) (failed_hunks (pf_hunks (fst x)) (r_hunks (snd x))).
+
+Fixpoint write_rejs (xs : list (pfilepatch * freport)) : outcome bytes :=
+  match xs with
+  | [] => Ok []
+  | x :: r => do a <- write_rej (fst x) (snd x); do c <- write_rejs r; Ok (a ++ c)
+  end.
+
+Lemma write_rejs_filepatches xs : Forall (fun x => r_failed (snd x) = true) xs ->
+  write_rejs xs = write_filepatches (List.map rej_fp xs).
+Proof.
+  induction 1 as [|x r Hx Hr IH]; [reflexivity|]. cbn [write_rejs List.map write_filepatches].
+  rewrite (write_rej_is_filepatch _ _ Hx), IH. reflexivity.
+Qed.
+
+Theorem merged_rej_roundtrip xs out :
+  Forall (fun x => wf_fp0 (fst x) /\ r_failed (snd x) = true /\
+                   failed_hunks (pf_hunks (fst x)) (r_hunks (snd x)) <> [] /\ fp_names_ok (fst x)) xs ->
+  write_rejs xs = Ok out ->
+  exists fps', parse_patch out 0 false = Ok (Parsed {| pp_header := []; pp_fps := fps' |}) /\
+               Forall2 same_fp0 (List.map (fun x => strip_fp 0 (rej_fp x)) xs) fps'.
+Proof.
+  intros Hall Hw.
+  assert (Hf : Forall (fun x => r_failed (snd x) = true) xs) by (eapply Forall_impl; [|exact Hall]; intros x H; apply H).
+  rewrite (write_rejs_filepatches xs Hf) in Hw.
+  assert (Hwf : Forall wf_fp0 (List.map rej_fp xs)).
+  { apply Forall_map. eapply Forall_impl; [|exact Hall]. intros x (Hw0 & _ & Hne & _). unfold rej_fp.
+    pose proof Hw0 as [_ _ _ _ _ _ _ (_ & Hh & Hc)].
+    apply wf_fp0_with_hunks; [assumption|assumption| |]; apply failed_hunks_forall; assumption. }
+  assert (Hn : Forall fp_names_ok (List.map rej_fp xs)).
+  { apply Forall_map. eapply Forall_impl; [|exact Hall]. intros x (_ & _ & _ & Hnm). exact Hnm. (* names are those of the file patch *) }
+  unfold parse_patch.
+  destruct (write_parse_patch0 _ Hwf Hn out (S (length out)) [] [] Hw) as (fps' & Hp & Hs).
+  { rewrite map_length. pose proof (write_filepatches_length _ _ Hw) as L. rewrite map_length in L. lia. }
+  exists fps'. split; [exact Hp|]. rewrite map_map in Hs. exact Hs.
+Qed.
+
+(* ---------- which bytes a rendered reject file holds ---------- *)
+From RQ Require Import Quilt.
+
+Fixpoint rej_lookup (n : bytes) (rs : list rej_file) : option bytes :=
+  match rs with
+  | [] => None
+  | (m, d) :: r => if bytes_eqb m n then Some d else rej_lookup n r
+  end.
+
+Definition odef (x : option bytes) : bytes := match x with Some y => y | None => [] end.
+
+Lemma add_rej_lookup_same n d : forall acc, rej_lookup n (add_rej n d acc) = Some (d ++ odef (rej_lookup n acc)).
+Proof.
+  induction acc as [|[m x] r IH]; cbn [add_rej rej_lookup odef].
+  - assert (E : bytes_eqb n n = true) by (apply bytes_eqb_eq; reflexivity). rewrite E, app_nil_r. reflexivity.
+  - destruct (bytes_eqb m n) eqn:E; cbn [rej_lookup]; rewrite E; [reflexivity|exact IH].
+Qed.
+
+Lemma add_rej_lookup_other n n' d : n' <> n -> forall acc, rej_lookup n' (add_rej n d acc) = rej_lookup n' acc.
+Proof.
+  intros Hne. induction acc as [|[m x] r IH]; cbn [add_rej rej_lookup].
+  - destruct (bytes_eqb n n') eqn:E; [apply bytes_eqb_eq in E; congruence|reflexivity].
+  - destruct (bytes_eqb m n) eqn:E; cbn [rej_lookup].
+    + apply bytes_eqb_eq in E. subst m. destruct (bytes_eqb n n') eqn:E2; [apply bytes_eqb_eq in E2; congruence|reflexivity].
+    + destruct (bytes_eqb m n'); [reflexivity|exact IH].
+Qed.
+
+(* the file named n: the rejects rendered for it, the one rendered last in front *)
+Lemma fold_add_rej n : forall (l : list rej_file) acc,
+  odef (rej_lookup n (fold_left (fun a r => add_rej (fst r) (snd r) a) l acc)) =
+  List.concat (rev (List.map snd (filter (fun r => bytes_eqb (fst r) n) l))) ++ odef (rej_lookup n acc).
+Proof.
+  induction l as [|[m d] l IH]; intros acc; cbn [fold_left filter fst snd]; [reflexivity|].
+  rewrite IH. destruct (bytes_eqb m n) eqn:E.
+  - apply bytes_eqb_eq in E. subst m. rewrite add_rej_lookup_same. cbn [odef List.map rev].
+    rewrite concat_app. cbn [List.concat]. rewrite app_nil_r, <- app_assoc. reflexivity.
+  - rewrite add_rej_lookup_other; [reflexivity|]. intros ->.
+    assert (bytes_eqb m m = true) by (apply bytes_eqb_eq; reflexivity). congruence.
+Qed.
+
+Lemma write_rejs_concat : forall xs ds,
+  Forall2 (fun x d => write_rej (fst x) (snd x) = Ok d) xs ds -> write_rejs xs = Ok (List.concat ds).
+Proof.
+  induction 1 as [|x d xs ds Hx Hr IH]; [reflexivity|]. cbn [write_rejs List.concat]. rewrite Hx, IH. reflexivity.
+Qed.
+
+Lemma Forall2_filter {A B} (R : A -> B -> Prop) (p : A -> bool) (q : B -> bool) :
+  forall l1 l2, Forall2 R l1 l2 -> (forall a c, R a c -> p a = q c) -> Forall2 R (filter p l1) (filter q l2).
+Proof.
+  induction 1 as [|a c l1 l2 Hac Hr IH]; intros Hpq; cbn [filter]; [constructor|].
+  rewrite (Hpq a c Hac). destruct (q c); [constructor; [assumption|]|]; apply IH; assumption.
+Qed.
+
+Lemma Forall2_rev {A B} (R : A -> B -> Prop) : forall l1 l2, Forall2 R l1 l2 -> Forall2 R (rev l1) (rev l2).
+Proof.
+  induction 1 as [|a c l1 l2 Hac Hr IH]; cbn [rev]; [constructor|].
+  apply Forall2_app; [assumption|constructor; [assumption|constructor]].
+Qed.
+
+(* The reject file rendered under the name n for the rejected statuses [ss] (newest first, as the walk meets them):
+   it reads back as one file patch per rejected file patch targeting n, in the order of the patch, each with the
+   names, modes and hashes of its file patch and exactly its failed hunks. *)
+Theorem rendered_rej_reads_back (ss : list status) (l rejs : list rej_file) (n : bytes) :
+  rejs = fold_left (fun a r => add_rej (fst r) (snd r) a) l [] ->
+  Forall2 (fun s r => fst r = rej_name (st_target s) /\ write_rej_bytes s = ROk (snd r)) ss l ->
+  Forall (fun s => wf_fp0 (st_fp s) /\ r_failed (st_report s) = true /\
+                   failed_hunks (pf_hunks (st_fp s)) (r_hunks (st_report s)) <> [] /\ fp_names_ok (st_fp s)) ss ->
+  let mine := rev (filter (fun s => bytes_eqb (rej_name (st_target s)) n) ss) in
+  exists fps', parse_patch (odef (rej_lookup n rejs)) 0 false = Ok (Parsed {| pp_header := []; pp_fps := fps' |}) /\
+               Forall2 same_fp0 (List.map (fun s => strip_fp 0 (rej_fp (st_fp s, st_report s))) mine) fps'.
+Proof.
+  intros -> H2 Hall mine.
+  rewrite fold_add_rej. cbn [rej_lookup odef]. rewrite app_nil_r.
+  set (ln := filter (fun r : rej_file => bytes_eqb (fst r) n) l).
+  assert (Hf : Forall2 (fun s r => fst r = rej_name (st_target s) /\ write_rej_bytes s = ROk (snd r))
+                       (filter (fun s => bytes_eqb (rej_name (st_target s)) n) ss) ln).
+  { apply Forall2_filter; [exact H2|]. intros s r [E _]. rewrite E. reflexivity. }
+  apply Forall2_rev in Hf. fold mine in Hf.
+  assert (Hw : write_rejs (List.map (fun s => (st_fp s, st_report s)) mine) = Ok (List.concat (rev (List.map snd ln)))).
+  { apply write_rejs_concat. rewrite <- map_rev. clear -Hf. induction Hf as [|s r ss' rs' [_ Hs] Hr IH]; cbn [List.map]; constructor.
+    - cbn [fst snd]. unfold write_rej_bytes in Hs. destruct (write_rej (st_fp s) (st_report s)); cbn in Hs; congruence.
+    - exact IH. }
+  assert (Hmine : Forall (fun x => wf_fp0 (fst x) /\ r_failed (snd x) = true /\
+                                    failed_hunks (pf_hunks (fst x)) (r_hunks (snd x)) <> [] /\ fp_names_ok (fst x))
+                         (List.map (fun s => (st_fp s, st_report s)) mine)).
+  { apply Forall_map. cbn [fst snd]. unfold mine. apply Forall_rev. rewrite Forall_forall in Hall |- *.
+    intros s Hs. apply filter_In in Hs. apply Hall, Hs. }
+  destruct (merged_rej_roundtrip _ _ Hmine Hw) as (fps' & Hp & Hs).
+  exists fps'. split; [exact Hp|]. rewrite map_map in Hs. exact Hs.
+Qed.
